@@ -13,6 +13,9 @@ script (see coq/Channel/Multi.v `run`, harness/src/bin/chan.rs):
     scripts the generator obtains them from a first run of the implementation);
     offers: message m = script position, total length max(64,len) bytes, `send`t at time t into channel c mod 2nl;
     consecutive offers with equal time and equal sending module (parity of c) are one burst (one handler invocation).
+  probe script (nl = 0):  seed 0 brk br lat jit  ntx (len tx)*  nw (hi lo)*   -- ChannelMetrics::calculate_duration is called
+    directly, for every length, with a generator whose every draw is the 64-bit word hi*2^32+lo; record 5 len hi lo j with
+    j = duration - latency - tx (the model computes j exactly: top 53 bits of the word, f64 product, truncation).
 output: 7 n (link len tx)* then records  1 c m t (transmission start) | 2 c m t (arrival) | 3 c t busy finish pk by (sample) |
         4 c m f (fate of a send: 0 started, 1 dropped/Drop, 2 dropped/queue full, 3 queued) | 13 (run() returned Err)
 """
@@ -28,7 +31,8 @@ THEOREMS = ["C07_account", "C07_account_none_twice", "C07_run_completes", "C07_i
             "C07_multi_transfer", "C07_multi_channel_wf", "C07_new_instance_starts_idle", "C07_created_idle",
             "C07_multi_run_completes", "C07_run_over_cqueue_eq_run_over_spec", "C07_single_over_cqueue_eq_over_spec",
             "C07_multi_over_cqueue_eq_over_spec", "C07_account_cq", "C07_delivery_time_cq", "C07_busy_span_cq",
-            "C07_fifo_order_cq", "C07_links_independent_cq", "C07_multi_run_completes_cq"]
+            "C07_fifo_order_cq", "C07_links_independent_cq", "C07_multi_run_completes_cq",
+            "C07_jitter_below_bound_for_every_draw", "C07_no_jitter_no_offset"]
 QUICK_N = 3000; THOROUGH_N = 200000
 XCHECK_N = 40
 CLAIM = dict(
@@ -39,7 +43,8 @@ CLAIM = dict(
          "offered, none twice, and the loop runs dry with everything delivered or dropped; (no message stuck) an idle channel has an "
          "empty queue, idle = no Unbusy event pending, busy = exactly one, stamped with the finish time; (delivery time) every "
          "delivery happens at start + tx(len) + latency + j with j the sample drawn for that transmission, j = 0 without jitter and "
-         "j < jitter whenever the oracle's samples are, and every started transmission is delivered then or still in flight for that "
+         "j < jitter whenever the oracle's samples are -- and the draw itself, floor(fl(u*jitter_ns)) with u the top 53 bits of the "
+         "generator's word, is below jitter for EVERY 64-bit word --, and every started transmission is delivered then or still in flight for that "
          "time; (busy span, in event order) a transmission with tx > 0 makes the channel busy until the Unbusy event stamped "
          "start + tx, in between every offer is dropped or queued and is_busy/transmission_finish_time read busy/that time, outside "
          "offers start at once; (FIFO) a queued message starts only as head of the queue, in the handler of the Unbusy event of that "
@@ -64,7 +69,8 @@ CLAIM = dict(
     note="Trusted: Coq kernel; extraction (ExtrOcamlBasic) cross-checked in-Coq by vm_compute each run; harness and generator bound the "
          "tie to the code. calculate_busy (f64) and the rng are oracles of the model: tx enters as a per-script table that is recomputed "
          "with the same IEEE operations, echoed by the implementation and checked to be size*8/bitrate rounded to ns; jitter samples of "
-         "jittered runs are read off the implementation's own seeded run, only their range [0, jitter) is asserted (F6). 'Busy exactly "
+         "jittered simulation runs are read off the implementation's own seeded run (range [0, jitter) asserted); calculate_duration "
+         "itself is compared exactly under scripted generator words (F6 and its partial repairs). 'Busy exactly "
          "for the transmission time' is stated in event order (an offer or sample processed in the finish instant before the Unbusy "
          "event still sees the channel busy). A transmission time below 0.5 ns rounds to 0 and does not occupy the channel; with "
          "jitter > 0 deliveries may reorder; queued messages are not re-checked against the sender's state (not part of C07). The "
@@ -85,15 +91,19 @@ RULE = ("scripts from a structured generator: bitrate in {0,1,8,1e3,1e9,2e12,usi
         "template handle | connected at run time from the live forward channel of link 0, the template's metrics win) with such offer sequences on 2..4 channels merged by time (both directions "
         "of a link overlapping, the same direction of several template links overlapping, one handler sending into several "
         "channels, a run-time link first used while its template transmits); non-trivial = distinct script (sha1) hitting at "
-        "least three targeted mechanisms")
+        "least three targeted mechanisms; 6% probe scripts: ChannelMetrics::calculate_duration called directly under generators "
+        "returning all-ones, zero, 2^63, alternating bits, the largest 53-bit draw and its neighbours and random words, for jitter 0, "
+        "few ns, 10^k, {125,25,5}*10^a*2^b, 2^k-1/2^k/2^k+1 and random values up to 2^52")
 TRUSTED = ["ChannelMetrics::calculate_busy enters the model as a per-script table (recomputed here with the same f64 operations, "
            "echoed by the implementation and compared; checked to be within rounding of len*8e9/bitrate)",
-           "jitter samples enter the model as per-channel oracle lists; for jittered runs they are read off the implementation's own run",
+           "jitter samples of simulation runs enter the model as per-channel oracle lists, read off the implementation's own run; the draw "
+           "itself (calculate_duration under a generator returning scripted 64-bit words) is modelled exactly -- top 53 bits of the word "
+           "(rand 0.9 StandardUniform), f64 product with jitter_ns, truncation -- and compared exactly by probe scripts",
            "the queue size (packets, bytes) is observed through the channel's Debug output while busy; enqueue vs drop is inferred from it",
            "the HandleMessageEvent following a MessageExitingConnection in the same instant is folded into the Exit event of the model",
            "an instance of the model comes into being when a handler first uses it (dup of the live template, C07_created_idle); "
            "the harness connects run-time links inside the handler that first sends on them, other links before the run"]
-ASSUMPTIONS = ["fewer than 65536 messages per script (MessageId is u16)", "times below 2^62 ns", "at most 16 channel instances (3 links used)",
+ASSUMPTIONS = ["fewer than 65536 messages per script (MessageId is u16)", "times below 2^62 ns", "at most 16 channel instances (3 links used)", "jitter below 2^53 ns (as f64 exact)",
                "both directions of a link have the metrics of its template (Gate::connect takes one template); two modules, never shut "
                "down; receivers do not reply"]
 
@@ -114,6 +124,63 @@ def tx_ns(bitrate, length):
     if rem > Fraction(1, 2) or (rem == Fraction(1, 2) and n % 2 == 1):
         n += 1
     return n
+
+
+def is_probe(script):
+    return len(script) > 1 and script[1] == 0
+
+
+def parse_probe(script):
+    s = list(script) + [0] * max(0, 6 - len(script))
+    i = 6
+    k = s[i] if i < len(s) else 0
+    tb = s[i + 1:i + 1 + k]; i += 1 + k
+    k2 = s[i] if i < len(s) else 0
+    wb = s[i + 1:i + 1 + k2]
+    return dict(seed=s[0], bitrate=UMAX if s[2] == 1 else s[3], lat=s[4], jit=s[5],
+                lens=[tb[j] for j in range(0, len(tb) - 1, 2)],
+                words=[(wb[j], wb[j + 1]) for j in range(0, len(wb) - 1, 2)])
+
+
+def build_probe(seed, bitrate, lat, jit, lens, words):
+    brk, br = (1, 0) if bitrate == UMAX else (0, bitrate)
+    tb = []
+    for l in lens:
+        tb += [l, tx_ns(bitrate, max(HDR, l))]
+    wb = []
+    for w in words:
+        wb += [w >> 32, w & 0xFFFFFFFF]
+    return [seed, 0, brk, br, lat, jit, len(tb)] + tb + [len(wb)] + wb
+
+
+def monitor_probe(script, out):
+    """the jitter part of calculate_duration is in [0, jitter) -- 0 without jitter -- for EVERY generator output"""
+    p = parse_probe(script)
+    if out is None or len(out) < 2 or out[0] != 7:
+        return "malformed output"
+    i = 2 + 2 * out[1]
+    for j in range(2, i - 1, 2):
+        l, t = max(out[j], HDR), out[j + 1]
+        if p["bitrate"] == 0:
+            if t != 0: return "bitrate 0 (unlimited) but calculate_busy(%d) = %d" % (l, t)
+        else:
+            exact = Fraction(l * 8 * 10 ** 9, p["bitrate"])
+            if abs(t - exact) > Fraction(1, 2) + exact / (1 << 50):
+                return "calculate_busy(%d B) = %d ns is not size*8/bitrate = %s ns rounded" % (l, t, float(exact))
+    n = 0
+    while i + 5 <= len(out):
+        if out[i] != 5:
+            return "malformed probe record"
+        _, l, hi, lo, jv = out[i:i + 5]; i += 5; n += 1
+        if p["jit"] == 0:
+            if jv != 0:
+                return "no jitter configured, yet calculate_duration adds %d ns (generator word %#x)" % (jv, (hi << 32) + lo)
+        elif not (0 <= jv < p["jit"]):
+            return ("calculate_duration: jitter %d ns is outside [0, %d) for the generator word %#x (len %d)" %
+                    (jv, p["jit"], (hi << 32) + lo, l))
+    if i != len(out) or n != len(p["lens"]) * len(p["words"]):
+        return "probe answered %d of %d calls" % (n, len(p["lens"]) * len(p["words"]))
+    return None
 
 
 def parse(script):
@@ -151,6 +218,8 @@ def parse(script):
 
 
 def split(script):
+    if is_probe(script):
+        return list(script), []
     p = parse(script)
     hdr = list(script[:p["hdr_end"]])
     rest = list(script[p["hdr_end"]:])
@@ -202,6 +271,11 @@ def build(seed, bitrate, lat, jit, pol, lim, offers, oracle=(), modes=(0,)):
 
 
 def pretty(script):
+    if is_probe(script):
+        p = parse_probe(script)
+        return "probe calculate_duration: bitrate=%s latency=%dns jitter=%dns lengths=%s words=%s" % (
+            "usize::MAX" if p["bitrate"] == UMAX else p["bitrate"], p["lat"], p["jit"], p["lens"],
+            ["%#x" % ((h << 32) + l) for h, l in p["words"]])
     p = parse(script)
     mode = {0: "own", 1: "shared-template", 2: "run-time-from-live-link0"}
 
@@ -466,6 +540,8 @@ def _chan(p, tx, offers, recs):
 
 
 def monitor(script, out):
+    if is_probe(script):
+        return monitor_probe(script, out)
     msg, inversions, facts = _analyse(script, out)
     if msg is not None:
         return msg
@@ -477,6 +553,20 @@ def monitor(script, out):
 
 
 def mechanisms(script, out):
+    if is_probe(script):
+        p = parse_probe(script)
+        ms = {"probe_calculate_duration"}
+        J = p["jit"]
+        if J == 0: ms.add("probe_no_jitter")
+        elif J < 64: ms.add("probe_jitter_few_ns")
+        if J and J & (J - 1) == 0: ms.add("probe_jitter_power_of_two")
+        if J and (J + 1) & J == 0 or J and ((J - 1) & (J - 2) == 0 and J > 2): ms.add("probe_jitter_next_to_power_of_two")
+        if J and str(J).rstrip("0") in ("1", "125", "25", "5"): ms.add("probe_jitter_decimal_family")
+        ws = {(h << 32) + l for h, l in p["words"]}
+        if (1 << 64) - 1 in ws: ms.add("probe_word_all_ones")
+        if 0 in ws: ms.add("probe_word_zero")
+        if any(w >> 11 == (1 << 53) - 1 for w in ws): ms.add("probe_largest_draw")
+        return ms
     p = parse(script)
     ms = set()
     offers = p["offers"]
@@ -598,7 +688,29 @@ def rand_metrics(rng):
     return br, sizes, lat, jit, pol, lim
 
 
+EXTREME_WORDS = [(1 << 64) - 1, 0, 1 << 63, 0xAAAAAAAAAAAAAAAA, 0x5555555555555555, ((1 << 53) - 1) << 11, 1 << 11,
+                 (1 << 63) - 1, ((1 << 53) - 2) << 11, (1 << 64) - (1 << 32), (1 << 32) - 1]
+
+
+def gen_probe(rng):
+    """calculate_duration under generators with extreme outputs, for jitter values of several families"""
+    k = rng.randint(0, 52)
+    fam = rng.random()
+    if fam < 0.08: jit = 0
+    elif fam < 0.25: jit = rng.choice([1, 2, 3, 5, 7, 9, 11, 41, 43, 63])
+    elif fam < 0.45: jit = 10 ** rng.randint(0, 15)
+    elif fam < 0.65: jit = rng.choice([125, 25, 5]) * 10 ** rng.randint(0, 9) * 2 ** rng.randint(0, 6)
+    elif fam < 0.85: jit = max(1, (1 << k) + rng.choice([-1, 0, 1]))
+    else: jit = rng.randint(1, 1 << rng.randint(1, 52))
+    br = rng.choice(BITRATES)
+    lens = rng.sample(SIZES, rng.randint(1, 2))
+    words = list(EXTREME_WORDS) + [rng.getrandbits(64) for _ in range(4)] + [(((1 << 53) - 1 - rng.randint(0, 1 << rng.randint(0, 40))) << 11) | rng.getrandbits(11) for _ in range(3)]
+    return build_probe(rng.randint(0, 10 ** 6), br, rng.choice(LATS), jit, lens, words)
+
+
 def gen_plain(rng):
+    if rng.random() < 0.06:
+        return gen_probe(rng)
     br, sizes, lat, jit, pol, lim = rand_metrics(rng)
     t0 = rng.choice([0, 0, 1, 1000])
     r = rng.random()
@@ -669,7 +781,7 @@ def _impl_bin():
 def fill_oracles(scripts):
     """For scripts with jitter: run the implementation once and record the samples it drew
     (arrival - start - tx - latency, per channel in transmission order) as the model's oracle."""
-    parsed = {i: parse(s) for i, s in enumerate(scripts)}
+    parsed = {i: parse(s) for i, s in enumerate(scripts) if not is_probe(s)}
     idx = [i for i in parsed if any(l["jit"] for l in parsed[i]["eff"])]
     if not idx or not os.path.exists(_impl_bin()):
         return scripts
